@@ -574,7 +574,7 @@ def representative_answers(ctx, vnum, reduced=False):
         if len(t) > 1:
             out.append(t[:-1])
             out.append(t[0] + " " + t[1:])
-    out += ["", " ", "\t", "?", "ZZ", "N/A", "AV:N", "(N)", "0", "1", "none", "NONE", "not defined", "Not Defined", "NOT_DEFINED", "ND", "nd", "X", "x", "-", "/", ":"]
+    out += ["", " ", "\t", "?", "ZZ", "N/A", "AV:N", "(N)", "0", "1", "7", "99", "\u00b2", "none", "NONE", "not defined", "Not Defined", "NOT_DEFINED", "ND", "nd", "X", "x", "-", "/", ":"]
     seen = []
     for a in out:
         if a not in seen:
